@@ -215,20 +215,7 @@ func (d *disconnectHandler) handleGracePeriodExpired() {
 			)...,
 		)
 
-		d.election.becomeFollower()
-
-		d.election.mu.RLock()
-		onDemote := d.election.onDemote
-		d.election.mu.RUnlock()
-
-		if onDemote != nil {
-			log.Info("leader_demoted",
-				append(d.election.logWithContext(d.election.ctx),
-					zap.String("reason", "connection_loss"),
-				)...,
-			)
-			onDemote()
-		}
+		d.election.demote("connection_loss")
 	}
 }
 
@@ -349,19 +336,6 @@ func (e *kvElection) handleReconnectVerificationFailed(err error) {
 			)...,
 		)
 
-		e.becomeFollower()
-
-		e.mu.RLock()
-		onDemote := e.onDemote
-		e.mu.RUnlock()
-
-		if onDemote != nil {
-			log.Info("leader_demoted",
-				append(e.logWithContext(e.ctx),
-					zap.String("reason", "reconnect_verification_failed"),
-				)...,
-			)
-			onDemote()
-		}
+		e.demote("reconnect_verification_failed")
 	}
 }
